@@ -10,6 +10,7 @@ import (
 	"github.com/nspcc-dev/neo-go/pkg/rpcclient/invoker"
 	"github.com/nspcc-dev/neo-go/pkg/util"
 	"github.com/nspcc-dev/neofs-contract/rpc/nns"
+	"github.com/nspcc-dev/neofs-node/internal/verifhook"
 )
 
 const (
@@ -40,6 +41,11 @@ func NNSAlphabetContractName(index int) string {
 // in NNS contract.
 // If script hash has not been found, returns ErrNNSRecordNotFound.
 func (c *Client) NNSContractAddress(name string) (sh util.Uint160, err error) {
+	if verifhook.Enabled {
+		if ok, r := verifhook.Morph(c, "NNSContractAddress", name); ok {
+			return verifhook.Res[util.Uint160](r, 0), verifhook.ResErr(r, 1)
+		}
+	}
 	var conn = c.conn.Load()
 
 	if conn == nil {
@@ -59,6 +65,11 @@ func (c *Client) NNSContractAddress(name string) (sh util.Uint160, err error) {
 // HasUserInNNS checks NNS for the given domain name and address,
 // returning true if such record exists.
 func (c *Client) HasUserInNNS(name string, addr util.Uint160) (bool, error) {
+	if verifhook.Enabled {
+		if ok, r := verifhook.Morph(c, "HasUserInNNS", name, addr); ok {
+			return verifhook.Res[bool](r, 0), verifhook.ResErr(r, 1)
+		}
+	}
 	var conn = c.conn.Load()
 
 	if conn == nil {
@@ -81,6 +92,11 @@ func (c *Client) HasUserInNNS(name string, addr util.Uint160) (bool, error) {
 
 // NNSHash returns NNS contract hash.
 func (c *Client) NNSHash() (util.Uint160, error) {
+	if verifhook.Enabled {
+		if ok, r := verifhook.Morph(c, "NNSHash"); ok {
+			return verifhook.Res[util.Uint160](r, 0), verifhook.ResErr(r, 1)
+		}
+	}
 	var conn = c.conn.Load()
 
 	if conn == nil {
